@@ -809,7 +809,7 @@ pub fn check_main(prop: Arc<dyn Prop>, tier: Tier) -> i32 {
     }
     if !out.harness_errors.is_empty() {
         for e in out.harness_errors.iter() {
-            eprintln!("HARNESS-ERROR: {}", e);
+            println!("HARNESS-ERROR: {}", e);
         }
         if out.violations.is_empty() {
             return 2;
